@@ -41,11 +41,12 @@ RULE = ("sequences of 2-12 create / create -sf runs (real clock: several runs pe
         "after every run the c4 of every manifest's bytes and the parsed chain of every history are taken from disk with an independent reader; oracle: existing manifests "
         "byte-identical, at most one new manifest per history, numbered max+1, named NNNN_<folder>_<UTC>Z.mhl, chain = old entries unchanged + exactly one entry "
         "(number, file name, c4 of the new file's actual bytes), no stray file in ascmhl/, info lists 1..n ascending. Non-trivial: >= 3 create runs.")
-# recorded inputs that run first on every run: a folder whose NAME contains a line feed, a dot, blanks, digits and underscores --
+# recorded inputs that run first on every run: a folder whose NAME contains a line feed, a dot, blanks, digits and underscores, or
+# characters that other file systems reserve (the manifest is named after the folder AS IT IS CALLED) --
 # the manifests of every generation must be found again (numbering continues, nothing is overwritten)
 CORPUS = [{"root_name": rn, "tree": {"a.txt": {"f": "4141"}, "b": {"d": {"c.bin": {"f": "42"}}}},
            "steps": [{"op": "create", "fmts": ["md5"]}, {"op": "create", "fmts": ["md5"]}, {"op": "add", "path": "n.txt", "data": "4e"},
                      {"op": "create", "fmts": ["xxh64"]}, {"op": "verify"}] + ([] if "\n" in rn else [{"op": "info"}])}
-          for rn in ("two\nlines", "A001.RDM 2 _0007_", "0001_x")]
+          for rn in ("two\nlines", "A001.RDM 2 _0007_", "0001_x", 'Day 1: "Scene" 4?', "cam<1>|B*", "back\\slash & co")]
 check, replay = make("C06", oracles.oracle_c06, scenario, 40, 800, RULE, snap=True, corpus=CORPUS,
                      nontrivial=lambda scn, obs: sum(1 for s in scn["steps"] if s["op"] == "create") >= 3)
